@@ -77,6 +77,9 @@ class OP(Adapter):
     def scale(self, inst):
         return PUNIT
 
+    def step_cap(self, inst):
+        return inst["N"] + 2        # StepBound + 1: one step beyond the bound is enough for M_C02c
+
     def make_env(self, inst):
         from rl4co.envs import OPEnv
 
